@@ -59,12 +59,19 @@ def line_op(rng, kind=None):
     return {"k": rng.choice(["log", "log", "log", "raw"]), "n": n}
 
 
+def nest_ops(rng):
+    """one statement whose operand logs a line of its own (harness: two LogStreams alive on the thread)"""
+    return [{"k": "nest", "n": rng.randint(20, 400)}, {"k": "nestout", "n": rng.randint(20, 400)}]
+
+
 def ctl_ops(rng):
     """a silenced stretch for one thread, in one of the statement forms"""
     out = [rng.choice([{"k": "dis"}, {"k": "dislog", "n": rng.randint(20, 80)}])]
     for _ in range(rng.randint(0, 4)):
         r = rng.random()
-        if r < 0.6:
+        if r < 0.1:
+            out += nest_ops(rng)
+        elif r < 0.6:
             out.append({"k": "log", "n": rng.randint(20, 3000)})
         elif r < 0.75:
             out.append({"k": "kmsg", "n": rng.randint(30, 160)})
@@ -86,6 +93,8 @@ def body(rng, nops, kinds=None, ctl=0.0, kmsg=0.0, pause=0.0):
             ops.append({"k": "kmsg", "n": rng.randint(30, 160)})
         elif r < ctl + kmsg + pause:
             ops.append(rng.choice([{"k": "yield"}, {"k": "us", "n": rng.randint(1, 300)}]))
+        elif rng.random() < 0.08:
+            ops += nest_ops(rng)
         else:
             ops.append(line_op(rng, rng.choice(kinds) if kinds else None))
     return ops
